@@ -28,6 +28,9 @@ Ck == X.e = "ckpt"
 Store == [h \in {X.dump[i][1] : i \in 1..Len(X.dump)} |-> (X.dump[CHOOSE i \in 1..Len(X.dump) : X.dump[i][1] = h][2])]
 ValOf(k) == IF \E p \in content : p[1] = k THEN (CHOOSE p \in content : p[1] = k)[2] ELSE <<>>
 
+\* the list commitments of a block (transaction / receipt root): the trie root of {rlp(i) -> item i}, sensitive to every item
+DeriveShaT == X.e = "derive" => (X.derived = X.reference /\ X.blind = <<>>)
+
 \* "a trie's root hash ... equals the Merkle-Patricia root the specification defines for that content"
 RootCanonicalT == Ck => (X.keccakOK /\ RootIsCanonical(X.root, Store, content))
 \* "lookups ... return exactly the live content"
